@@ -348,7 +348,7 @@ class DepCall(Contract):
 FIT_CASES = [dict(weights=w, cons=c) for w in ("none", "callable", "returns_y") for c in ("none", "given")] + [dict(weights="none", cons="none", fail=True)]
 
 
-@contract(DF + "._fit", ["C14"], FIT_CASES, name="depfunc._fit")
+@contract(DF + "._fit", ["C14", "C09"], FIT_CASES, name="depfunc._fit")
 class DepFit(Contract):
     """_fit forwards (self, x, y, current parameter values in order, method, bounds, weights(x, y)) to the
     unconstrained fitter, or additionally the constraints to the constrained one; writes the optimum back
@@ -466,7 +466,7 @@ def _protocol_cases():
     return cases
 
 
-@contract(None, ["C14"], _protocol_cases(), name="depfunc.protocol")
+@contract(None, ["C14", "C09"], _protocol_cases(), name="depfunc.protocol")
 class DepProtocol(Contract):
     """histories: whatever the order of the fit calls (and after a re-fit), every dependence function that uses
     others ends with parameters from a fit performed AFTER the last fit of each function it uses, against their
